@@ -229,6 +229,25 @@ func Report(p *Program, units []*Unit, o CheckOpts, work string) int {
 		}
 		fmt.Printf("VIOLATION property=%s replay=%s obligation=%s%s\n", o.Prop, v.Replay, v.Obligation, suffix)
 	}
+	// thorough tier: sampled replays of the contracts on the real code (validation of contracts and of the engine's model)
+	sampRun, sampPass, sampSkip := 0, 0, 0
+	if o.Tier == "thorough" && os.Getenv("GOCV_NO_REPLAY") == "" {
+		for _, u := range units {
+			if u.Kind != "func" || u.Contract == nil || u.Err != "" {
+				continue
+			}
+			r, ps, sk, fails := SampleReplay(p, o, u.Contract)
+			sampRun += r
+			sampPass += ps
+			sampSkip += sk
+			for _, f := range fails {
+				fn := filepath.Join(replayDir, sanitize(o.Prop+"_sample_"+u.Name)+".txt")
+				os.WriteFile(fn, []byte("property: "+o.Prop+"\nsampled replay of a precondition model violates the compiled contract on the real code\n"+f+"\n"), 0o644)
+				fmt.Printf("VIOLATION property=%s replay=%s obligation=%s/%s/sampled-replay\n", o.Prop, fn, o.Prop, u.Name)
+				viol = append(viol, Violation{Obligation: o.Prop + "/" + u.Name + "/sampled-replay", Reason: f, Replay: fn})
+			}
+		}
+	}
 	seed, _ := strconv.Atoi(os.Getenv("VERIF_SEED"))
 	var assume []string
 	for k := range assumptions {
@@ -248,6 +267,7 @@ func Report(p *Program, units []*Unit, o CheckOpts, work string) int {
 			"trusted_base":             append([]string{"gocv VC generator (this repository, /verif/engine)", "z3 5.1.0 (z3-new), cvc5 1.0, z3 4.8.12", "go/types type checker"}, LibModels...),
 			"functions_under_contract": funcs, "by_solver": bs, "slowest": slowest, "samples": samples,
 			"vacuity_cover_queries": covers, "known_findings_seen": kfSeen,
+			"sampled_replays_on_real_code": map[string]int{"run": sampRun, "passed": sampPass, "units_not_replayable": sampSkip},
 			"counterexamples_replayed": nReplayed, "counterexamples_confirmed_on_real_code": nConfirmed,
 		},
 		"assumptions": assume, "wall_s": round3(time.Since(o.Start).Seconds()), "violations": len(viol),
